@@ -308,15 +308,21 @@ def check(ctx):
         w = A.method(prog, "ReactCommands", "with")
         ctx.touch(w)
         reg = [t for b, t, fr in w.iter_calls() if fr and lib.tail(mir.fn_name(fr), 1) == "syscall_with_validation"]
-        tok = [t for b, t, fr in w.iter_calls() if fr and lib.tail(mir.fn_name(fr), 2) == "RevokeToken::new_from"]
+        # the token may be built inside a closure of `with` (`matches!(mode, Revokable).then(|| RevokeToken::new_from(..))`)
+        tok = [(bd, t) for bd in [w] + prog.closures_of(w) for b, t, fr in bd.iter_calls() if fr and lib.tail(mir.fn_name(fr), 2) == "RevokeToken::new_from"]
         ok = len(reg) == 1 and len(tok) == 1
         if ok:
             agg = None
             for o in origins(w, reg[0]["args"][1]):
                 if o[0] == "agg":
                     agg = w.blocks[o[1]]["stmts"][o[2]]["rv"]["agg"]
+            tbd, tt_ = tok[0]
+
+            def from_arg(op, n):
+                os_ = origins(w, op) if tbd is w else lib.root_origins(prog, w, tbd, op)
+                return bool(os_) and all(o[0] == "arg" and o[1] == n for o in os_)
             ok = agg is not None and lib.originates_from_arg(w, agg["ops"][0], 2) and lib.originates_from_arg(w, agg["ops"][1], 3) \
-                and lib.originates_from_arg(w, tok[0]["args"][0], 3) and lib.originates_from_arg(w, tok[0]["args"][1], 2)
+                and from_arg(tt_["args"][0], 3) and from_arg(tt_["args"][1], 2)
         ctx.check(ok, "C06.e", "ReactCommands::with:token-matches-registration", "%s:%d" % (w.file, w.line),
                   "the token returned names the same system and triggers that were registered",
                   "ReactCommands::with registers and tokenises different (system, triggers) pairs")
